@@ -100,6 +100,15 @@ inline std::string unhex(const std::string& h) {
 }
 
 inline std::string exc_name(const std::exception& e) {
+    // by class hierarchy first: a library may introduce more specific classes derived from the documented ones
+    if (dynamic_cast<const CDNS::CdnsDecoderEnd*>(&e)) return "CdnsDecoderEnd";
+    if (dynamic_cast<const CDNS::CdnsDecoderException*>(&e)) return "CdnsDecoderException";
+    if (dynamic_cast<const CDNS::CborOutputException*>(&e)) return "CborOutputException";
+    if (dynamic_cast<const CDNS::CdnsEncoderException*>(&e)) return "CdnsEncoderException";
+    if (dynamic_cast<const std::length_error*>(&e)) return "std::length_error";
+    if (dynamic_cast<const std::ios_base::failure*>(&e)) return "std::ios_base::failure";
+    if (dynamic_cast<const std::runtime_error*>(&e)) return "std::runtime_error";
+    if (dynamic_cast<const std::bad_alloc*>(&e)) return "std::bad_alloc";
     std::string n = typeid(e).name();
     if (n.find("CdnsDecoderEnd") != std::string::npos) return "CdnsDecoderEnd";
     if (n.find("CdnsDecoderException") != std::string::npos) return "CdnsDecoderException";
